@@ -11,11 +11,12 @@ MANIFEST = dict(
     technique="exhaustive allocation-fault enumeration (every k-th allocation of every scenario fails; single and 'k-th and all later') under ASan+UBSan+LSan "
               "+ allocation ledger, and Lean 4 proofs over an allocation monad (all failure oracles) for ported functions with non-trivial cleanup",
     text="fault_enumeration / partial: for each of ~40 scenarios (initialise, compile each construct class and each module import, includes, externals, save, "
-         "load, scanner creation, scans with every module on sample files, external redefinition) every allocation made through yr_malloc/yr_calloc/yr_realloc/"
+         "load, scanner creation, scans with every module on sample files, hex strings on the fast-exec path, matches verified at the end of a block, external redefinition) every allocation made through yr_malloc/yr_calloc/yr_realloc/"
          "yr_strdup/yr_strndup is failed in turn (quick tier: every k for N<=300, stride+random otherwise; thorough: every k) and the outcome judged: error "
          "reported or correct completion, no crash, no leak (ledger + LeakSanitizer), objects destroyable, follow-up compile+scan works. "
-         "Proof only for the ported functions (Thm/C16.lean: arena allocate, notebook alloc, AC BFS queue loop, hash-table add, rules-level string redefinition, "
-         "scanner staged construction): for all failure oracles an error outcome leaves no allocation behind and the object destroyable; where the faithful port "
+         "Proof only for the ported functions (Thm/C16.lean: notebook, AC BFS queue loop, hash-table add, rules-level string redefinition, rules loading, "
+         "scanner staged construction, the block scanner's verification loops and the fast-exec position list — the last two with their "
+         "structure re-read from scanner.c/re.c by translators/oomsites.py): for all failure oracles an error outcome leaves no allocation behind and the object destroyable; where the faithful port "
          "refutes this, the negation is proved on a concrete oracle and the `_partial` theorem carries the extra hypothesis. Confirmed defects are listed as known "
          "findings keyed by the allocation call site; any other failing (kind, call site) is a violation.",
     design_ref="DESIGN.md §5 C16",
@@ -101,6 +102,29 @@ def scenarios(repo):
     sc.append(("scan_cond", "rscan", COND, []))
     sc.append(("scan_ext", "rscan", EXT, EXTS))
     sc.append(("fscan_text", "fscan", TEXT, ["file=" + os.path.join(d, "base64")]))
+    # fast-exec path of hex strings with jumps (re.c yr_re_fast_exec: position lists), several candidate jump lengths alive at
+    # once; the armed scan runs on a FRESH scanner (empty position/fiber pools) and the scanner is used again and destroyed
+    FJ = '''rule j1 { strings: $a = { 61 62 [1-4] 63 } $b = { 61 62 [1-4] 63 [1-3] 64 } condition: #a > 0 and #b > 0 }
+rule j2 { strings: $c = { 78 79 [2-6] 7a [1-2] 7a } $d = { 30 31 [0-5] 32 [0-5] 33 } condition: $c and $d }
+rule j3 { strings: $e = { 61 62 [1-4] 63 } condition: #e > 1 }'''
+    fjd = "data=" + (b"..abXccc..abcccd..xy..zzzzz 01222233 abYYcZd abccccccd 0122223 xyAAzBzz abXcXc").hex()
+    sc.append(("scan_fastjump", "scan", FJ, [fjd]))
+    sc.append(("rscan_fastjump", "rscan", FJ, [fjd]))
+    # matches verified at the END of the block: atoms ending exactly at the last byte, several entries in the final state's
+    # match list (suffix atoms), verification of some of them allocates (fast-exec positions, regexp fibers)
+    EOB1 = '''rule e1 { strings: $a = { 61 62 [1-2] 63 64 65 66 } condition: $a }
+rule e2 { strings: $b = "def" condition: $b }
+rule e3 { strings: $c = /c[a-z]ef/ condition: $c }
+rule e4 { strings: $d = "ef" condition: $d }'''
+    EOB2 = '''rule e4 { strings: $d = "ef" condition: $d }
+rule e3 { strings: $c = /c[a-z]ef/ condition: $c }
+rule e2 { strings: $b = "def" condition: $b }
+rule e1 { strings: $a = { 61 62 [1-2] 63 64 65 66 } condition: $a }
+rule e5 { strings: $e = /ab.{1,3}ef/ $f = { 65 66 } condition: $e and $f }'''
+    eobd = "data=" + b"..abXcdef..abXYcdef".hex()
+    for nm, txt in (("a", EOB1), ("b", EOB2)):
+        sc.append(("scan_eob_" + nm, "scan", txt, [eobd]))
+        sc.append(("rscan_eob_" + nm, "rscan", txt, [eobd]))
     for m, txt in MODRULES.items():
         sc.append(("scan_mod_" + m, "scan" if m in ("pe", "math", "hash") else "rscan", txt, [files[m]] if m in files else []))
     sc.append(("scan_mod_pe_imports", "rscan", MODRULES["pe"], ["file=" + os.path.join(d, "pe_imports")]))
@@ -288,8 +312,9 @@ def judge(d, base):
 
 def run(tier, replay=None):
     chk = core.Check("C16", tier)
+    thash = core.run_translators(["oomsites"])
     lres = core.lean_check(THM)
-    core.proof_coverage(chk, lres, THM)
+    core.proof_coverage(chk, lres, THM, thash)
     b = core.build("asan", harness=["h_oom"])
     # the arena "always move" hook makes the relocation code patch pointers at unaligned addresses on every allocation,
     # which UBSan's alignment check stops at once: the *_mv scenarios use a build without that one check
